@@ -78,6 +78,9 @@ _spec = importlib.util.spec_from_file_location("claims_extra", os.path.join(os.p
 _mod = importlib.util.module_from_spec(_spec); _spec.loader.exec_module(_mod)
 claims.update(_mod.claims(TRUST))
 na_reasons_extra = _mod.na_reasons
+for _k, _v in getattr(_mod, "addenda", {}).items():
+    _t, _n, _te = claims[_k]
+    claims[_k] = (_t + " " + _v, _n, _te)
 
 checks = []
 for p in props:
